@@ -231,9 +231,8 @@ def observe(payload):
     # n-ary union / intersection with 0..4 other operands (the methods as coded take *others), plus the comparisons
     # of the receiver with the first other operand
     nrows = []
-    for _ in range(int(payload.get("nary", 0)) if n0 else 0):
-        i = rng.randrange(n0)
-        js = [rng.randrange(n0) for _ in range(rng.choice([0, 1, 2, 2, 3, 3, 4]))]
+
+    def nary_row(i, js):
         a, others = tbl_groups[i], [tbl_groups[j] for j in js]
         try:
             bools = []
@@ -243,6 +242,18 @@ def observe(payload):
             nrows.append([i, js, intern(a.union(*others)), intern(a.intersection(*others)), bools])
         except Exception as e:  # noqa: BLE001
             nrows.append([i, js, f"raised:{_err_class(e)}"])
+    # regression cases first: [[names of a], [[names of other] ...]]
+    for a_names, others_names in payload.get("nary_cases", []):
+        try:
+            i = intern(u.conform(list(a_names)))
+            js = [intern(u.conform(list(o))) for o in others_names]
+        except Exception:  # noqa: BLE001  (a name this universe does not have)
+            continue
+        nary_row(i, js)
+    for _ in range(int(payload.get("nary", 0)) if n0 else 0):
+        i = rng.randrange(n0)
+        js = [rng.randrange(n0) for _ in range(rng.choice([0, 1, 2, 2, 3, 3, 4]))]
+        nary_row(i, js)
     res["nary"] = nrows
     res["table"] = [list(g.names) for g in tbl_groups]
     res["table_required"] = [list(g.required) for g in tbl_groups]
